@@ -330,20 +330,33 @@ func init() {
 			s.Check(a.cursorClass["nextCodePoint"] == "advance", "rank/loophead", c.P.Pos(a.loop.Pos()), "loop head calls nextCodePoint, which stores pointer+1", "loop head does not advance the cursor")
 			// nextCodePoint sets eof when the pointer passes the end: checked structurally on SSA
 			ncp := c.P.Func("url", "inputString", "nextCodePoint")
-			setsEOF := false
-			if ncp != nil {
-				for _, b := range ncp.Blocks {
+			// (directly or through a helper on the same cursor, e.g. an `atEnd()` shared with the byte reader)
+			var storesEOF func(fn *ssa.Function, depth int) bool
+			storesEOF = func(fn *ssa.Function, depth int) bool {
+				if fn == nil || depth > 3 {
+					return false
+				}
+				for _, b := range fn.Blocks {
 					for _, ins := range b.Instrs {
 						if st, ok := ins.(*ssa.Store); ok {
 							if fa, ok := st.Addr.(*ssa.FieldAddr); ok && fieldElem(fa.X.Type(), fa.Field) == "inputString:eof" {
 								if v, ok := constBool(st.Val); ok && v {
-									setsEOF = true
+									return true
+								}
+							}
+						}
+						if call, ok := ins.(ssa.CallInstruction); ok {
+							if callee := call.Common().StaticCallee(); callee != nil && callee.Pkg == fn.Pkg && len(callee.Params) > 0 && len(fn.Params) > 0 && len(call.Common().Args) > 0 && call.Common().Args[0] == ssa.Value(fn.Params[0]) {
+								if storesEOF(callee, depth+1) {
+									return true
 								}
 							}
 						}
 					}
 				}
+				return false
 			}
+			setsEOF := storesEOF(ncp, 0)
 			s.Check(setsEOF, "rank/eof", c.P.Pos(a.loop.Pos()), "nextCodePoint sets eof when the pointer reaches the length", "nextCodePoint never sets eof")
 			edges := map[string]map[string]bool{}
 			type stayKey struct{ st, ctx string }
